@@ -31,6 +31,7 @@ func (s *Scanner) switchToAnnotation() {
 	}
 
 	s.returnToStep.Push(s.step)
+	s.afterFirstSlash = true
 
 	switch s.annotation {
 	case annotationNone:
@@ -45,6 +46,7 @@ func (s *Scanner) switchToAnnotation() {
 }
 
 func stateAnyAnnotationStart(s *Scanner, c byte) state {
+	s.afterFirstSlash = false
 	switch c {
 	case '/': // second slash - inline annotation
 		s.annotation = annotationInline
@@ -64,6 +66,7 @@ func stateAnyAnnotationStart(s *Scanner, c byte) state {
 // Inline annotations states.
 
 func stateInlineAnnotationStart(s *Scanner, c byte) state {
+	s.afterFirstSlash = false
 	// second slash - inline annotation
 	if c != '/' {
 		panic(s.newDocumentErrorAtCharacter("after first slash on start inline annotation"))
